@@ -30,7 +30,8 @@ const OBS: usize = 2;
 
 impl TwoWorld {
     fn inner(&self) -> ChatScn {
-        let mut s = ChatScn::new("x", Cfg::default(), vec![part(0, "m1", "m1b", "u1"), part(1, "m2", "m2b", "u2"), part(2, "obs", "obsb", "ou")], 0);
+        let mut s = ChatScn::new("x", Cfg::default(), // the observer registered with the same USER name as the hidden party: a name is not an identity
+        vec![part(0, "m1", "m1b", "uu"), part(1, "m2", "m2b", "u2"), part(2, "obs", "obsb", "uu")], 0);
         match self.kind {
             Hidden::SecretChannel => {
                 for slot in 0..2 {
@@ -112,7 +113,7 @@ impl TwoWorld {
             Hidden::InvisibleUser => {
                 let mut b = vec![format!("WHO {}", m1), "WHO *".to_string(), "WHO m*".to_string(), "WHO *1*".to_string(), "NAMES".to_string(), "NAMES #p".to_string(), "NAMES #q".to_string(), "NAMES #p,#q".to_string(), format!("WHOIS {}", m1), format!("WHOIS {},m2", m1), "WHOIS m*".to_string(), "WHO #p".to_string(), "WHO #q".to_string()];
                 if self.full {
-                    b.extend(["WHO *!~u1@*".to_string(), "WHO Real*".to_string(), "WHOIS *1*".to_string(), "WHO ?1".to_string()]);
+                    b.extend(["WHO *!~uu@*".to_string(), "WHO Real*".to_string(), "WHOIS *1*".to_string(), "WHO ?1".to_string()]);
                 }
                 b
             }
